@@ -1,5 +1,7 @@
 """C19: equivalent encodings of a training list train the same grammar.
 Model: spec/Reader.tla; verdict: spec/TrLine.tla (kinds seq / same)."""
+import contextlib
+import io
 import hashlib
 import itertools
 import json
@@ -204,6 +206,45 @@ def main(pid, tier, seed):
             meta[tid] = {'encoding': encoding, 'compare': 'plain vs ' + name, 'differing_files': diff[:6],
                          'records': [[n, repr(s)] for n, s, _ in recs]}
 
+    # the encoding trainer.py autodetects when --encoding is not given (detect_file_encoding) is part of how a list is read:
+    # it must not depend on whether the passwords are written plainly or as $HEX[...], with LF or CRLF line ends
+    n_detect = 0
+    from lib_trainer.trainer_file_input import detect_file_encoding
+    RU = ['пароль', 'любовь', 'привет', 'наташа', 'максим', 'марина', 'солнышко', 'андрей', 'кристина', 'сергей', 'зайка', '123йцукен',
+          'йцукен', 'люблю', 'самсунг', 'настя', 'алексей', 'екатерина', 'спартак', 'дмитрий', 'Любовь1', 'ПАРОЛЬ', 'мойпароль',
+          'компьютер', 'лена1990', 'виктория', 'светлана', 'анастасия', 'александр', 'владимир']
+    FR = ['été', 'Zoë9', 'crème', 'garçon', 'français', 'señor', 'niño', 'mañana', 'über', 'straße', 'größe', 'café', 'naïve', 'élève',
+          'àbientôt', 'çava', 'façade', 'jalapeño', 'piñata', 'Køge', 'smörgåsbord', 'Ærø', 'fjäll']
+    ASC = ['password', 'abc123', 'qwerty12', '12345', 'letmein', 'dragon', 'monkey1']
+    for enc_, words in (('cp1251', RU), ('koi8-r', RU), ('iso-8859-1', FR), ('utf-8', RU))[:(2 if tier == 'quick' else 4)] + (('utf-8', FR),):
+        for trial in range(1 if tier == 'quick' else 6):
+            pws = rng.sample(words, 20) + rng.sample(ASC, 4)
+            rng.shuffle(pws)
+            found = {}
+            for le_name, le in (('LF', b'\n'), ('CRLF', b'\r\n')):
+                for var in ('plain', 'hex for the non-ASCII passwords', 'hex for all'):
+                    p = os.path.join(work, 'detect.txt')
+                    with open(p, 'wb') as f:
+                        for w in pws:
+                            b = w.encode(enc_)
+                            if var == 'hex for all' or (var != 'plain' and not w.isascii()):
+                                b = b'$HEX[' + b.hex().encode() + b']'
+                            f.write(b + le)
+                    lst = []
+                    with contextlib.redirect_stdout(io.StringIO()):
+                        ok_ = detect_file_encoding(p, lst)
+                    found[le_name + ', ' + var] = str(lst[0]) if ok_ and lst else 'FAILED'
+            n_detect += len(found)
+            ids = {}
+            I = lambda x: ids.setdefault(x, len(ids) + 1)
+            for name, val in found.items():
+                if name == 'LF, plain':
+                    continue
+                tid += 1
+                traces.append({'tid': tid, 'kind': 'same', 'a': [[1, I(found['LF, plain'])]], 'b': [[1, I(val)]]})
+                meta[tid] = {'encoding': enc_, 'compare': 'autodetected encoding: plain LF file vs ' + name, 'detected': found,
+                             'records': pws[:6]}
+
     verdicts, st = core.validate_traces('TrLine.tla', traces, chunk=400, timeout=600)
     for t in traces:
         v = verdicts[t['tid']]
@@ -222,7 +263,7 @@ def main(pid, tier, seed):
     distinct = len({json.dumps({k: v for k, v in t.items() if k != 'tid'}, sort_keys=True) for t in traces
                     if t['kind'] == 'same' or len(t['plain']) + len(t['meant']) > 0})
     s = traces[min(40, len(traces) - 1)]
-    cov = {'states': mc['states'], 'transitions': mc['transitions'],
+    cov = {'autodetections_compared': n_detect, 'states': mc['states'], 'transitions': mc['transitions'],
            'traces_validated_against_impl': len(traces),
            'samples': [{'meta': meta[s['tid']]}], 'model_checking': mc,
            'evaluations': len(traces), 'distinct_nontrivial': distinct,
